@@ -170,6 +170,15 @@ func Switch(thorough bool, expired func() bool, level func(name string, complete
 		yield(xid(wire.New("hello").Add("Elements", e.Clone(), wire.New("hello_elem_versionbitmap").Set("Type", 1).SetB("Bitmaps", Pat(4, 9)))))
 	}
 	yield(xid(wire.New("hello")))
+	// version negotiation: a switch that also speaks a later (or only an earlier) version puts its own
+	// highest version into the header of its hello and lists 1.3 in the bitmap; the error answering
+	// a failed negotiation carries the version of its sender
+	for _, v := range []uint64{1, 2, 3, 5, 6} {
+		e := wire.New("hello_elem_versionbitmap").Set("Type", 1).SetB("Bitmaps", []byte{0, 0, 0, byte(1<<4 | 1<<v)})
+		yield(xid(wire.New("hello").Set("Version", v).Add("Elements", e)))
+		yield(xid(wire.New("hello").Set("Version", v)))
+		yield(ErrorMsg(0, 0, []byte("incompatible version")).Set("Version", v))
+	}
 	// errors: every error type, data 0/1/64 bytes; experimenter error
 	for _, et := range []uint64{0, 1, 2, 3, 4, 5, 6, 7, 8, 9, 10, 11, 12, 13} {
 		for _, dl := range []int{0, 1, 64} {
